@@ -58,7 +58,7 @@ def stepEv (g : P) (s : Sys S P) (e : Ev) : Sys S P :=
   | .pk j i =>
     if j = i then s else
     match (s.ms[j]?).bind sentPk with
-    | some x => s.upd i (fun m => m.recvPk g { x with sender := j }) e   -- `Loop` stamps the transport sender
+    | some x => s.upd i (fun m => m.loopPk g j x) e   -- `Loop` stamps the transport sender
     | none => s
   | .deal j i =>
     if j = i then s else
